@@ -3,6 +3,7 @@
 package zzverif
 
 import (
+	"encoding/base64"
 	"encoding/hex"
 	"fmt"
 	"math/big"
@@ -24,6 +25,7 @@ import (
 	saotypes "github.com/SaoNetwork/sao/x/sao/types"
 	"github.com/SaoNetwork/sao/zzverif/sym"
 	"github.com/cosmos/cosmos-sdk/codec"
+	"github.com/cosmos/cosmos-sdk/crypto/keys/secp256k1"
 	"github.com/cosmos/cosmos-sdk/simapp"
 	sdk "github.com/cosmos/cosmos-sdk/types"
 	authtypes "github.com/cosmos/cosmos-sdk/x/auth/types"
@@ -468,4 +470,22 @@ func (w *World) WrittenOutside(snap int, store string, allowed ...string) bool {
 		}
 	}
 	return false
+}
+
+// validProofFor: natively the proof is really signed; the first sixteen generated account addresses belong to
+// keys derived from fixed secrets (engine/bech32.go keyTable).
+func validProofFor(addr, message string) string {
+	rec := sym.String("proofsig")
+	for n := 1; n <= 16; n++ {
+		pk := secp256k1.GenPrivKeyFromSecret([]byte(fmt.Sprintf("verif-key-%d", n)))
+		a, _ := sdk.Bech32ifyAddressBytes("sao", pk.PubKey().Address())
+		if a == addr {
+			sig, err := pk.Sign(didkeeper.GetSignData(addr, message))
+			if err != nil {
+				return rec
+			}
+			return "tendermint/PubKeySecp256k1." + base64.StdEncoding.EncodeToString(pk.PubKey().Bytes()) + "." + base64.StdEncoding.EncodeToString(sig)
+		}
+	}
+	return rec
 }
